@@ -708,6 +708,15 @@ func chartDevs() []Dev {
 		"nonutf8", "{{ define \"p.name\" }}\xff{{ end }}\n",
 	)...)
 	d = append(d, Dev{ID: H + ":absent", File: H, Absent: true, Core: true})
+	// include nested to just below its limit, then on through tpl whose text
+	// re-enters the chain from the top (and the other order): the two nesting
+	// limits must add up, not multiply
+	for _, depth := range []int{10, 500, 900, 999} {
+		d = append(d,
+			Dev{ID: fmt.Sprintf("%s:include-chain-%d-then-tpl", H, depth), Class: "include-chain-then-tpl-reentering-it", File: H, Text: includeThenTpl(depth)},
+			Dev{ID: fmt.Sprintf("%s:tpl-chain-%d-then-include", H, depth), Class: "tpl-chain-then-include-reentering-it", File: H, Text: tplThenInclude(depth)},
+		)
+	}
 	d = append(d, wholeDevs("templates/deploy.yaml", false,
 		"no-selector", "apiVersion: apps/v1\nkind: Deployment\nmetadata:\n  name: x\n",
 		"no-metadata", "apiVersion: apps/v1\nkind: StatefulSet\n",
@@ -892,6 +901,27 @@ func chartDevs() []Dev {
 	}
 	applyTiers(d, chartPairsQuick, chartTriples, chartPairs)
 	return d
+}
+
+// includeThenTpl: helper "walk" includes itself depth times, then calls tpl on
+// a text that includes "walk" from 0 again. (p.name, used by the baseline
+// templates, starts the walk.)
+func includeThenTpl(depth int) string {
+	return "{{- define \"p.name\" -}}x{{ include \"walk\" (dict \"n\" 0) }}{{- end -}}\n" +
+		"{{- define \"walk\" -}}\n" +
+		fmt.Sprintf("{{- if lt (int .n) %d -}}\n", depth) +
+		"{{- include \"walk\" (dict \"n\" (add1 .n)) -}}\n" +
+		"{{- else -}}\n" +
+		"{{- tpl \"{{ include \\\"walk\\\" (dict \\\"n\\\" 0) }}\" . -}}\n" +
+		"{{- end -}}\n{{- end -}}\n"
+}
+
+// tplThenInclude: a text that calls tpl on itself depth times, then includes a
+// helper that starts the tpl chain from 0 again.
+func tplThenInclude(depth int) string {
+	text := fmt.Sprintf("{{ if lt (int .n) %d }}{{ tpl .t (dict \"n\" (add1 .n) \"t\" .t) }}{{ else }}{{ include \"reenter\" . }}{{ end }}", depth)
+	return "{{- define \"p.name\" -}}x{{ include \"reenter\" (dict \"t\" " + fmt.Sprintf("%q", text) + ") }}{{- end -}}\n" +
+		"{{- define \"reenter\" -}}{{ tpl .t (dict \"n\" 0 \"t\" .t) }}{{- end -}}\n"
 }
 
 // chartPairsQuick selects the deviations that are combined pairwise in the
